@@ -333,6 +333,9 @@ def run_check(mod, tier, seed, replay=None, jobs=None):
         specs = [rp['spec']]
     else:
         specs = mod.plan(tier, seed)
+        only = os.environ.get('VERIF_ONLY_LANE')     # development aid (floors are skipped)
+        if only:
+            specs = [s for s in specs if s.get('lane') == only]
     for s in specs:
         s.setdefault('tier', tier)
     jobs = jobs or getattr(mod, 'JOBS', 14)
@@ -388,7 +391,7 @@ def run_check(mod, tier, seed, replay=None, jobs=None):
     missed = {k: (agg['counters'].get(k, 0), m) for k, m in floors.items()
               if agg['counters'].get(k, 0) < m}
     inconclusive = []
-    if replay:
+    if replay or os.environ.get('VERIF_ONLY_LANE'):
         missed = {}
     if agg['bad_specs']:
         inconclusive.append('%d spec(s) ended by watchdog/crash'
@@ -499,6 +502,11 @@ def spec_main(modname, specfile, resultfile):
             json.dump(rec.to_json(), f)
         os.replace(tmp, resultfile)
     rec.flush = flush
+    try:
+        from vmon import real as _real
+        _real._rec = rec
+    except Exception:
+        pass
     try:
         mod.run_spec(spec, rec)
     except BaseException:
